@@ -987,6 +987,23 @@ class QasmProcessor:
                 cbit_reg, classical_control_value = command[2].split("==")
                 cbit_inds = self.cbit_regs[cbit_reg]
                 classical_control_value = int(classical_control_value)
+                if classical_control_value >= 2 ** len(cbit_inds):
+                    # the register can never hold this value: the statement
+                    # is checked but no operation is added
+                    self._gate_add(
+                        QubitCircuit(qc.N), command[4:], custom_gates
+                    )
+                    continue
+                # OpenQASM reads the register as an integer whose lowest bit
+                # is the first bit, whereas the first classical control of a
+                # gate is the highest bit of classical_control_value
+                classical_control_value = int(
+                    format(
+                        classical_control_value,
+                        "0{}b".format(len(cbit_inds)),
+                    )[::-1],
+                    2,
+                )
                 self._gate_add(
                     qc,
                     command[4:],
